@@ -291,7 +291,12 @@ func (i *interpreter) slice(x, lo, hi, max value) value {
 		Len = len(a)
 		Cap = cap(a)
 	case symstr:
-		unsupported("slicing a symbolic string")
+		ts, ok := bstrTerms(x)
+		if !ok {
+			unsupported("slicing a symbolic string")
+		}
+		Len = len(ts)
+		Cap = Len
 	}
 
 	l := int64(0)
@@ -308,7 +313,11 @@ func (i *interpreter) slice(x, lo, hi, max value) value {
 	if max != nil {
 		m = i.concretize(max, "slice.max")
 	}
-	if _, ok := x.(string); ok {
+	_, isStr := x.(string)
+	if _, ok := x.(symstr); ok {
+		isStr = true
+	}
+	if isStr {
 		if l < 0 || h < l || h > int64(Len) {
 			panic(runtimePanic{fmt.Sprintf("slice bounds out of range [%d:%d] with length %d", l, h, Len)})
 		}
@@ -319,6 +328,9 @@ func (i *interpreter) slice(x, lo, hi, max value) value {
 	switch x := x.(type) {
 	case string:
 		return x[l:h]
+	case symstr:
+		ts, _ := bstrTerms(x)
+		return mkBStr(ts[l:h])
 	case []value:
 		return x[l:h:m]
 	case *value: // *array
@@ -977,6 +989,21 @@ func typeAssert(i *interpreter, instr *ssa.TypeAssert, itf iface) value {
 // This variable is no longer used but remains to prevent build breakage.
 var CapturedOutput *bytes.Buffer
 
+// aggregateElem returns the element type of slice type t when it is a struct
+// or array (a type whose values the interpreter represents by shared objects),
+// nil otherwise.
+func aggregateElem(t types.Type) types.Type {
+	sl, ok := t.Underlying().(*types.Slice)
+	if !ok {
+		return nil
+	}
+	switch sl.Elem().Underlying().(type) {
+	case *types.Struct, *types.Array:
+		return sl.Elem()
+	}
+	return nil
+}
+
 // callBuiltin interprets a call to builtin fn with arguments args,
 // returning its result.
 func callBuiltin(caller *frame, callpos token.Pos, fn *ssa.Builtin, args []value) value {
@@ -995,18 +1022,37 @@ func callBuiltin(caller *frame, callpos token.Pos, fn *ssa.Builtin, args []value
 			return arg0
 		}
 		if _, ok := args[1].(symstr); ok {
-			unsupported("append of a symbolic string to a byte slice")
+			ts, ok := bstrTerms(args[1])
+			if !ok {
+				unsupported("append of a symbolic string to a byte slice")
+			}
+			return append(args[0].([]value), bstrBytes(ts)...)
 		}
 		// append([]T, ...[]T) []T
 		// Elements beyond len of the destination are invisible to the
 		// program until the returned header is stored somewhere (which is
 		// logged), so the in-place write needs no undo entry.
+		// Elements of aggregate type are values: the appended cells get their
+		// own copies (sharing the structure objects of the source would make a
+		// later in-place field store through one slice visible through the other).
+		if et := aggregateElem(fn.Type().(*types.Signature).Params().At(0).Type()); et != nil {
+			out := args[0].([]value)
+			for _, e := range args[1].([]value) {
+				e := e
+				out = append(out, load(et, &e))
+			}
+			return out
+		}
 		return append(args[0].([]value), args[1].([]value)...)
 
 	case "copy": // copy([]T, []T) int or copy([]byte, string) int
 		src := args[1]
 		if _, ok := src.(symstr); ok {
-			unsupported("copy from a symbolic string")
+			ts, ok := bstrTerms(src)
+			if !ok {
+				unsupported("copy from a symbolic string")
+			}
+			src = bstrBytes(ts)
 		}
 		if _, ok := src.(string); ok {
 			params := fn.Type().(*types.Signature).Params()
@@ -1021,6 +1067,18 @@ func callBuiltin(caller *frame, callpos token.Pos, fn *ssa.Builtin, args []value
 		// overlapping copy semantics: use a temporary
 		tmp := make([]value, n)
 		copy(tmp, srcs[:n])
+		if et := aggregateElem(fn.Type().(*types.Signature).Params().At(0).Type()); et != nil {
+			// aggregate elements are copied by value, into the destination's own cells
+			for j := 0; j < n; j++ {
+				v := load(et, &tmp[j])
+				if dst[j] == nil {
+					i.set(&dst[j], v)
+				} else {
+					i.store(et, &dst[j], v)
+				}
+			}
+			return n
+		}
 		for j := 0; j < n; j++ {
 			i.set(&dst[j], tmp[j])
 		}
@@ -1175,7 +1233,11 @@ func rangeIter(x value, t types.Type) iter {
 	case string:
 		return &stringIter{Reader: strings.NewReader(x)}
 	case symstr:
-		unsupported("range over a symbolic string")
+		ts, ok := bstrTerms(x)
+		if !ok {
+			unsupported("range over a symbolic string")
+		}
+		return &bstrIter{ts: ts}
 	}
 	panic(fmt.Sprintf("cannot range over %T", x))
 }
@@ -1230,6 +1292,13 @@ func conv(t_dst, t_src types.Type, x value) value {
 	case symstr:
 		if b, ok := ut_dst.(*types.Basic); ok && b.Kind() == types.String {
 			return x
+		}
+		if sl, ok := ut_dst.(*types.Slice); ok {
+			if eb, ok := sl.Elem().Underlying().(*types.Basic); ok && eb.Kind() == types.Uint8 {
+				if ts, ok := bstrTerms(sx); ok {
+					return bstrBytes(ts)
+				}
+			}
 		}
 		unsupported("conversion of a symbolic string to %s", t_dst)
 	}
